@@ -277,10 +277,43 @@ def ob_upsert_accounts(h, recs, K):
                 dump=dump_tables({"before": pre, "after": post}), timeout_ms=300000)
 
 
+def ob_read_log_ik(h, recs, K):
+    """ReadLogWithIdempotencyKey: returns a log iff THIS ledger holds a log with the key, and then that very log (the unique
+    index on (ledger, idempotency_key) makes it unique: assumed here, resolved from the DDL under C14)"""
+    for rec in pick(recs, "ReadLogWithIdempotencyKey", features="default", alone="false"):
+        if rec["config"].get("ledger"):
+            continue
+        t, cons, P, params, amt = setup(K)
+        key = z3.String("ik")
+        params = dict(params, **{"IK#1": vstr(key)})
+        logs = t["logs"]
+        db = DB(t, params=params, jsonkeys=sqltables.JSONKEYS)
+        db.exact_limit = True
+        try:
+            res = sqlsym.Evaluator(db).rel(sqlsym.parse(rec["sql"][-1]))
+        except sqlsym.Unsupported as e:
+            h.inconclusive.append(f"ReadLogWithIdempotencyKey: outside the SQL subset: {e}")
+            return
+        cons = cons + db.assumes
+        L = P["L"]
+        has = lambda r: z3.And(mine(logs, r, L), z3.Not(col(logs, r, "idempotency_key").null), col(logs, r, "idempotency_key").z == key)
+        uniq = [z3.Not(z3.And(has(a), has(b))) for i, a in enumerate(logs.rows) for b in logs.rows[i + 1:]]
+        n = [c[1] for c in res.cols]
+        cnt = z3.Sum([z3.If(o.guard, 1, 0) for o in res.rows]) if res.rows else z3.IntVal(0)
+        goals = [cnt == z3.If(z3.Or(*[has(r) for r in logs.rows]), 1, 0)]
+        for o in res.rows:
+            goals.append(z3.Implies(o.guard, z3.Or(*[z3.And(has(r), o.vals[n.index("id")].z == col(logs, r, "id").z, o.vals[n.index("ledger")].z == L) for r in logs.rows])))
+        h.encoded.append("ReadLogWithIdempotencyKey")
+        h.reachable("end", cons + uniq + [z3.Or(*[has(r) for r in logs.rows])])
+        h.prove("C13:the-idempotency-lookup-returns-this-ledger's-log-with-that-key-and-no-other", cons + uniq, z3.And(*goals), model_vars=[L, key],
+                detail=rec["sql"][-1][:700], dump=dump_tables({"logs": logs}))
+
+
 def run(repo, tier, out, props):
     recs = capture_sql(repo)
     K = 3 if tier == "quick" else 4
     h = Harness("WRITES")
+    ob_read_log_ik(h, recs, K)
     for rec in pick(recs, "UpdateVolumes", features="default", alone="false"):
         ob_update_volumes(h, rec, K)
     for rec in pick(recs, "GetBalances", features="default", alone="false"):
